@@ -358,6 +358,17 @@ Section Gate.
     end.
 End Gate.
 
+(* proxy/grpc_handler.go: GrpcProxyInterceptor.Stream looks the target up (Table.Lookup on the
+   method path) and hands the stream to the director, which dials the target.  Neither
+   AccessDeniedHTTP / AccessDeniedTCP nor Authorized is called anywhere on this path: the
+   allow / deny / auth options of a proto=grpc route have no effect (F-C12-4, open).
+   [ERespond 404] stands for status NotFound ("no route found"). *)
+Definition serve_grpc (t : option target) : list event :=
+  match t with
+  | None => [ERespond 404]
+  | Some _ => [EUpstream]
+  end.
+
 (* ================= specification side ================= *)
 (* a CIDR block as a set of addresses: family, network number, prefix length *)
 Record sblock := { s_v6 : bool; s_net : N; s_len : N }.
